@@ -152,6 +152,26 @@ type ElementInstance = []Reference
 // Reference is the runtime representation of RefType which is either RefTypeFuncref or RefTypeExternref.
 type Reference = uintptr
 
+// globalValueType returns the value type of the global at the given index of the global index space, or false
+// if its declaration is not found.
+func (m *Module) globalValueType(index Index) (ValueType, bool) {
+	if index >= m.ImportGlobalCount {
+		if local := int(index - m.ImportGlobalCount); local < len(m.GlobalSection) {
+			return m.GlobalSection[local].Type.ValType, true
+		}
+		return 0, false
+	}
+	for i := range m.ImportSection {
+		if imp := &m.ImportSection[i]; imp.Type == ExternTypeGlobal {
+			if index == 0 {
+				return imp.DescGlobal.ValType, true
+			}
+			index--
+		}
+	}
+	return 0, false
+}
+
 // validateTable ensures any ElementSegment is valid. This caches results via Module.validatedActiveElementSegments.
 // Note: limitsType are validated by decoders, so not re-validated here.
 func (m *Module) validateTable(enabledFeatures api.CoreFeatures, tables []Table, maximumTableIndex uint32) error {
@@ -181,6 +201,11 @@ func (m *Module) validateTable(enabledFeatures api.CoreFeatures, tables []Table,
 			if ok {
 				if index >= globalsCount {
 					return fmt.Errorf("%s[%d].init[%d] global index %d out of range", SectionIDName(SectionIDElement), idx, ei, index)
+				}
+				// The global's value becomes a reference in the table: its type must be the element's.
+				if vt, ok := m.globalValueType(index); ok && vt != elem.Type {
+					return fmt.Errorf("%s[%d].init[%d] global type mismatch: %s != %s", SectionIDName(SectionIDElement), idx, ei,
+						ValueTypeName(vt), RefTypeName(elem.Type))
 				}
 			} else {
 				if elem.Type == RefTypeExternref {
